@@ -20,6 +20,7 @@ type Result struct {
 	Answer  string  `json:"answer"`
 	Model   string  `json:"model,omitempty"`
 	Query   string  `json:"query_file,omitempty"`
+	Replay  *ReplayResult `json:"replay,omitempty"`
 }
 
 func (vc *VC) query(o *Obligation) string {
